@@ -130,6 +130,12 @@ pub fn family(name: &str) -> GenCfg {
         // many candidates, most of them excluded or with unknown dependencies: far more than 64
         // negative assertions in one solve, requirements whose candidate lists are mostly ruled out
         // at level 1 before they are encoded
+        // hundreds of packages (layered, so that searches stay tractable)
+        "huge" => GenCfg { npkg: 160, maxver: 3, maxreq: 3, p_con: 50, p_missing: 2, p_union: 10, maxroot: 6, layered: true, ..GenCfg::conf() },
+        "huge-hints" => GenCfg { hints: 1, ..family("huge") },
+        // solvables with dozens of requirements and constrains each
+        "hub" => GenCfg { npkg: 40, maxver: 3, maxreq: 45, p_con: 60, p_union: 10, p_missing: 3, layered: true, ..GenCfg::conf() },
+        "hub-hints" => GenCfg { hints: 1, ..family("hub") },
         // long soft-requirement lists (up to 200 entries: duplicates, other versions of listed
         // packages, excluded / locked-out / unknown-dependency solvables among them)
         "many-soft" => GenCfg { npkg: 14, maxver: 6, ..GenCfg::medium().with_soft(200) },
